@@ -1,4 +1,4 @@
-import Chewing.Proofs.C01Next
+import Chewing.Proofs.C01Jump
 /-!
 C01, part 9: one public operation of the editor (`Editor.apply`): returns and re-establishes `EditorInv`.
 -/
@@ -6,13 +6,6 @@ namespace Chewing.C01
 open Chewing Chewing.C04 Chewing.C05 Chewing.C06
 
 variable {D L : Type} {env : Env D L} {G : D → Prop}
-
-/-- what this package's theorem covers: everything except `jump_to_{first,last,next,prev}_selection_point`
-    **while a phrase candidate list is open** (`PhraseSelector::{next,prev}_selection_point`,
-    `jump_to_*`) -/
-def Covered (e : Editor D L) : Op L → Prop
-  | .jump _ => ∀ s p, e.state = .selecting s → s.sel ≠ .phrase p
-  | _ => True
 
 theorem select_tail_ok (hE : EnvOK env G) {sh : Shared D L} {st : St} (h : ShInv env G sh) (hs : StInv env sh st) :
     OkAnd (fun x => EditorInv env G x.1)
@@ -68,7 +61,7 @@ theorem revalidate_ok (hE : EnvOK env G) {e : Editor D L} (hi : EditorInv env G 
 
 /-- **one operation**: it returns (no panic, no exhausted fuel) and the invariant holds again -/
 theorem apply_ok (hE : EnvOK env G) {e : Editor D L} (hi : EditorInv env G e) (op : Op L) (hv : OpValid op)
-    (hk : ¬ Known env e op) (hc : Covered e op) : OkAnd (EditorInv env G) (e.apply env op) := by
+    (hk : ¬ Known env e op) : OkAnd (EditorInv env G) (e.apply env op) := by
   cases op with
   | key ev =>
     have hpk : OkAnd (fun x => EditorInv env G x.1) (e.processKey env ev) := by
@@ -132,12 +125,7 @@ theorem apply_ok (hE : EnvOK env G) {e : Editor D L} (hi : EditorInv env G e) (o
       exact ⟨hk.1 c hcc, hk.2.1 c hcc⟩
     · exact stInv_unlearn hi hk.2.2 rfl rfl
   | jump w =>
-    simp only [Editor.apply, Editor.jump]
-    split
-    · next s hs =>
-      split
-      · next p hp => exact absurd hp (hc s p hs)
-      · exact .ok hi
-    · exact .ok hi
+    obtain ⟨⟨e', b⟩, hq, h1⟩ := jump_api_ok hi w
+    simp only [Editor.apply]; rw [hq]; exact .ok h1
 
 end Chewing.C01
